@@ -43,9 +43,9 @@ private theorem fast_seq (ct : String) (hct : ct = "list" ∨ ct = "tuple" ∨ c
   unfold writeNdarray
   simp [hxs, canonNumeric]
 
-theorem filter_true' {α : Type} : ∀ (l : List α), List.filter (fun _ => true) l = l
+theorem filter_true_eq {α : Type} : ∀ (l : List α), List.filter (fun _ => true) l = l
   | [] => rfl
-  | a :: l => by simp [List.filter, filter_true' l]
+  | a :: l => by simp [List.filter, filter_true_eq l]
 
 /-- the storage namespace (attribute / array / sub-group) a value is written to does not
 depend on the skip lists -/
@@ -109,7 +109,7 @@ theorem roundtrip_attr : ∀ (v : Val), wfA v = true → decodeAttr {} (encode {
       simp [encode, decodeAttr, ftrue, fget, roundtrip_kids kvs hw, canon, bind, Except.bind]
   | .obj cls attrs, h => by
       have hw : wfAttrs attrs = true := by simpa [wfA] using h
-      simp [encode, decodeAttr, ftrue, fget, roundtrip_attrs attrs hw, canon, bind, Except.bind, dropTypes, filter_true']
+      simp [encode, decodeAttr, ftrue, fget, roundtrip_attrs attrs hw, canon, bind, Except.bind, dropTypes, filter_true_eq]
 /-- **round trip, container position** (`_deserialize_container`) -/
 theorem roundtrip_item : ∀ (v : Val), wfC v = true → decodeItem (encode {} v) = .ok (canon v)
   | .scalar s, _ => by cases s <;> simp [encode, decodeItem, attrVal, canon]
@@ -232,7 +232,7 @@ canonical forms of the saved ones -/
 theorem roundtrip (cls : String) (attrs : List (String × Val)) (h : wfA (.obj cls attrs) = true) :
     load {} (save {} (.obj cls attrs)) = .ok (canon (.obj cls attrs)) := by
   have hw : wfAttrs attrs = true := by simpa [wfA] using h
-  simp [load, save, encode, fget, roundtrip_attrs attrs hw, canon, bind, Except.bind, dropTypes, filter_true']
+  simp [load, save, encode, fget, roundtrip_attrs attrs hw, canon, bind, Except.bind, dropTypes, filter_true_eq]
 
 /-- restoration only permutes entries (attributes loop, arrays loop, sub-groups loop) -/
 theorem reorder_perm (xs : List (String × Ns × Val)) :
